@@ -56,6 +56,11 @@ example : keeper 10 5 0 [10, 14, 28] = ([10, 24, 38], some 43) := by decide
 theorem receive_step_order :
     Gen.Site.receiveData = ["_get_pdu", "set", "pdu_handler", "received", "received", "_send_data"] := by decide
 
+/-- TIE TO THE SOURCE (regenerated on every run, Gen/Site.lean): the keeper `_connection_keeper` in source order: two waiter tasks, then the probe is built and sent as a task of its own (not awaited inline, not queued behind application traffic), the answer is awaited with the time-out, the data event is cleared, the time-out is raised - what the keeper model (Model/Keeper.lean) assumes -/
+theorem keeper_step_order :
+    Gen.Site.keeper = ["create_task", "create_task", "EnquireLink", "_send_data", "create_task", "wait_for", "clear", "raise"] := by
+  decide
+
 end SmppVerif.Props.C16
 
 #print axioms SmppVerif.Props.C16.probe_on_idle
@@ -64,3 +69,4 @@ end SmppVerif.Props.C16
 #print axioms SmppVerif.Props.C16.dead_peer_dropped
 #print axioms SmppVerif.Props.C16.live_peer_kept
 #print axioms SmppVerif.Props.C16.receive_step_order
+#print axioms SmppVerif.Props.C16.keeper_step_order
